@@ -4,7 +4,8 @@ Enumerates, on live Data objects (nworld=3) after each history of a small alphab
 and every per-world key array over {-1, 0, 2, nkey(invalid)}^3.  Valid worlds must equal a fresh Data with the
 keyframe's time/qpos/qvel/act/ctrl/mocap written into it (bit for bit, and in the next K steps) and
 mj_resetDataKeyframe (f32); invalid-index worlds must be untouched (twin without the call); invalid scalar keys and
-malformed arrays must raise ValueError.
+malformed arrays must raise ValueError.  64-bit key arrays holding values beyond 32 bits must either be rejected with nothing
+touched or behave like the same values in an int32 array (an index such as 2**32 is out of range).
 """
 
 import itertools
